@@ -34,7 +34,7 @@ import (
 )
 
 type typedPkg struct {
-	New      func(cb func(ctx context.Context, op string, args []any, res any) error, ne func(ctx context.Context, err error, res any), fill func(any), hc ht.Client, eh func(context.Context, http.ResponseWriter, *http.Request, error), mws ...middleware.Middleware) (http.Handler, any, any, error)
+	New      func(cb func(ctx context.Context, op string, args []any, res any) error, ne func(ctx context.Context, err error, res any), fill func(context.Context, any), saw func(context.Context, any), hc ht.Client, eh func(context.Context, http.ResponseWriter, *http.Request, error), mws ...middleware.Middleware) (http.Handler, any, any, error)
 	Impls    map[string][]reflect.Type
 	Ops      []string
 	Webhooks map[string]string // webhook operation -> webhook name
@@ -1071,6 +1071,7 @@ type TypedSide struct {
 	mwSeen   bool
 	mw2Op    string
 	resp     *Node
+	creds    []*Node // what the security handler was shown, in order
 }
 
 // TypedRec is the typed part of a call record.
@@ -1169,15 +1170,43 @@ func typedNewError(ctx context.Context, err error, res any) {
 	}
 }
 
-func typedFill(p any) {
+// typedFill is the client's security source: every text member of a credential names the call it belongs to.
+func typedFill(ctx context.Context, p any) {
 	v := reflect.ValueOf(p).Elem()
 	if v.Kind() != reflect.Struct {
 		return
 	}
+	prefix := "tok-x-x-"
+	if ci := infoFrom(ctx); ci != nil {
+		prefix = fmt.Sprintf("tok-%d-%d-", ci.Task, ci.Op)
+	}
 	for i := 0; i < v.NumField(); i++ {
 		if f := v.Field(i); f.Kind() == reflect.String && f.CanSet() {
-			f.SetString("simtok" + strconv.Itoa(i))
+			f.SetString(prefix + strconv.Itoa(i))
 		}
+	}
+}
+
+// typedSecSaw is called by the accept-all security handler with the credential the server extracted.
+func typedSecSaw(ctx context.Context, cred any) {
+	si, ts := typedSide(ctx)
+	if si == nil {
+		return
+	}
+	si.Side.SecurityCalls++
+	ts.creds = append(ts.creds, snap(reflect.ValueOf(cred), false, 0))
+	si.St.MaybeYield()
+}
+
+// foreignCredential: a text of the form tok-<task>-<op>-<i> that names another call.
+func foreignCredential(n *Node, task, op int, out *[]string) {
+	if n.T == "str" {
+		if s, err := strconv.Unquote(n.V); err == nil && strings.HasPrefix(s, "tok-") && !strings.HasPrefix(s, fmt.Sprintf("tok-%d-%d-", task, op)) {
+			*out = append(*out, s)
+		}
+	}
+	for _, c := range n.C {
+		foreignCredential(c, task, op, out)
 	}
 }
 
@@ -1297,6 +1326,13 @@ func (r *CallRecord) sealTyped(pkg string) {
 			continue
 		}
 		tr.Sides = append(tr.Sides, ts)
+		for _, c := range ts.creds {
+			var foreign []string
+			foreignCredential(c, r.Task, r.Op, &foreign)
+			for _, f := range foreign {
+				add(fmt.Sprintf("request/the security handler was shown another call's credential (delivery %d): %s", i, f))
+			}
+		}
 		if !ts.Reached {
 			continue
 		}
